@@ -2,6 +2,12 @@
 (* C20, code -> spec: every constant read from symplyphysics.quantities      *)
 (* (harness/c20.py) is compared with the reference table of Constants.tla.   *)
 (*                                                                          *)
+(* The trace holds one TABLE per (history of helper calls performed on the   *)
+(* catalogue, read path) - see ConstantsUse.tla; the first table is the      *)
+(* direct read (scale factor) without any prior call.                        *)
+(* The trace holds one TABLE per (history of helper calls performed on the   *)
+(* catalogue's own objects, read path) - see ConstantsUse.tla; the first     *)
+(* table is the direct read (scale factor) without any prior call.           *)
 (* A recorded row is                                                         *)
 (*   [name, exported, d (eight [n, d] exponent pairs in the order L M T I K  *)
 (*    N J A), m / e (SI value, nine-digit mantissa and decimal exponent),    *)
@@ -16,7 +22,10 @@
 EXTENDS Constants, IOUtils
 
 Trace == JsonDeserialize(IOEnv.TRACE_FILE)
-Rows == Trace.rows
+\* one table per (history of helper calls, read path): [hist, path, rows]
+Tables == Trace.tables
+VARIABLE tb
+Rows == Tables[tb].rows
 
 BaseSeq == <<"L", "M", "T", "I", "K", "N", "J", "A">>
 IdxOf(b) == CHOOSE i \in 1..8 : BaseSeq[i] = b
@@ -34,26 +43,26 @@ RecNum == [n \in RecNames |-> [m |-> RowOf(n).m, e |-> RowOf(n).e]]
 RecK == [n \in RecNames |-> IF n \in Names THEN MinI2(Ref[n].k, RowOf(n).sig) ELSE RowOf(n).sig]
 
 TSteps == Len(Rows) + Len(IdSeq)
-TInit == step = 1
-TNext == step < TSteps /\ step' = step + 1
+TInit == tb \in 1..Len(Tables) /\ step = 1          \* one initial state per table
+TNext == step < TSteps /\ step' = step + 1 /\ UNCHANGED tb
 
 \* one verdict line per recorded constant and per identity (total verdicts)
 RowVerdict == step <= Len(Rows) =>
   LET r == Rows[step] IN
-    IF ~Covered(r) THEN PrintT(ToJson([row |-> r.name, covered |-> FALSE]))
-    ELSE PrintT(ToJson([row |-> r.name, covered |-> TRUE, dim |-> RowDimOK(r), val |-> RowValOK(r),
+    IF ~Covered(r) THEN PrintT(ToJson([tb |-> tb, row |-> r.name, covered |-> FALSE]))
+    ELSE PrintT(ToJson([tb |-> tb, row |-> r.name, covered |-> TRUE, dim |-> RowDimOK(r), val |-> RowValOK(r),
                         digits |-> RowK(r), dist |-> BDist([m |-> r.m, e |-> r.e], Num(Ref[r.name])),
                         refm |-> Ref[r.name].m, refe |-> Ref[r.name].e]))
 
 IdVerdict == step > Len(Rows) =>
   LET id == IdSeq[step - Len(Rows)] IN
-    IF ~(Involved(id) \subseteq RecNames) THEN PrintT(ToJson([id |-> id, evaluated |-> FALSE]))
+    IF ~(Involved(id) \subseteq RecNames) THEN PrintT(ToJson([tb |-> tb, id |-> id, evaluated |-> FALSE]))
     \* mutual consistency does not depend on how coarsely the library happens to WRITE a constant:
     \* the identities are compared to the precision of the reference values (at most 7 digits)
-    ELSE PrintT(ToJson([id |-> id, evaluated |-> TRUE, holds |-> IdHolds(id, RecNum, RefK),
+    ELSE PrintT(ToJson([tb |-> tb, id |-> id, evaluated |-> TRUE, holds |-> IdHolds(id, RecNum, RefK),
                         digits |-> IdPrecision(id, RefK), dist |-> BDist(Lhs(id, RecNum), Rhs(id, RecNum)),
                         lhs |-> Lhs(id, RecNum), rhs |-> Rhs(id, RecNum)]))
 
 \* reference rows for which the library exports nothing (informational)
-Unmatched == step = 1 => PrintT(ToJson([unmatched |-> SeqOf(Names \ RecNames)]))
+Unmatched == (step = 1 /\ tb = 1) => PrintT(ToJson([unmatched |-> SeqOf(Names \ RecNames)]))
 =============================================================================
